@@ -44,6 +44,42 @@ def snapshot(V, extra_links=()):
     return st
 
 
+def run_warnings_as_errors(ctx):
+    """a builder that a warning-turned-error ends has built nothing: the vertices it was given are as before ("rejected whole")"""
+    res = ctx.res
+    h = H(ctx.src, [DICT_FN.rsplit(".", 1)[0], MAT_FN.rsplit(".", 1)[0], "edgegraph.builder.explicit", "edgegraph.traversal.helpers"])
+    fdict, fmat = h.fn(DICT_FN), h.fn(MAT_FN)
+    k = 0
+    names = ["a", "b", "c"]
+    inputs = [("matrix", cell) for cell in itertools.product((0, 1), repeat=4)] + [("dict", rows) for rows in itertools.product(((), ("a",), ("b",), ("b", "a"), ("e",)), repeat=2)]
+    for lt in LINKTYPES:
+        for kind, data in inputs:
+            try:
+                if kind == "matrix":
+                    V, P, W = world(h, names[:2])
+                    pre = snapshot(V)
+                    out = h.call(fmat, Seq([Seq(list(data[0:2]), "list"), Seq(list(data[2:4]), "list")], "list"), Seq([V["a"], V["b"]], "list"), h.cls(lt))
+                else:
+                    V, P, W = world(h, ["a", "b", "e"])
+                    pre = snapshot(V)
+                    out = h.call(fdict, DictV([[V[kk], Seq([V[x] for x in row], "list")] for kk, row in zip(("a", "b"), data)]), h.cls(lt))
+            except Unknown as u:
+                res.ob(False)
+                res.undecide(f"builder ({kind}, {data}, {lt}) with warnings as errors: {u}")
+                continue
+            if not common.warned(out):
+                continue
+            k += 1
+            post = snapshot(V)
+            ok = post == pre
+            res.ob(ok, sig=("warn", kind, data, lt))
+            if not ok:
+                res.violation("REJECT-WHOLE", MAT_FN if kind == "matrix" else DICT_FN, f"builder={kind},linktype={lt},raises-a-warning-category",
+                              f"{'load_adj_matrix(' + str([list(data[0:2]), list(data[2:4])]) + ', [a, b]' if kind == 'matrix' else 'load_adj_dict({a: ' + str(list(data[0])) + ', b: ' + str(list(data[1])) + '}'}, {lt}) raises {out.excname} "
+                              "after vertices were already touched: " + "; ".join(f"{n_}: {pre[n_]} -> {post[n_]}" for n_ in pre if pre[n_] != post[n_])[:300])
+    res.rule("REJECT-WHOLE/warnings-as-errors", k)
+
+
 def run(ctx):
     res = ctx.res
     res.level = LEVEL
